@@ -285,9 +285,23 @@ func checkC05(c *core.Ctx) []core.Floor {
 			sc.tags = append(sc.tags, clauseTag(q))
 			sc.expectErr = append(sc.expectErr, false)
 		}
+		// queries that differ from one another only in the blanks inside a
+		// string literal, written identically otherwise, one after the other
+		if i%4 == 0 {
+			for _, w := range []string{"a b", "a  b", " a b", "a b", "ab"} {
+				q := &proto.NStmt{Kind: "select", From: []proto.NTable{{Name: "t1"}}, Where: &proto.Cond{Op: []string{"=", "!="}[i/4%2], LHS: model.ColOp("s"), RHS: model.LitOp(proto.Str(w))},
+					Items: []proto.NItem{{Kind: "expr", Expr: &proto.Cond{Op: "val", LHS: model.ColOp("u")}}, {Kind: "expr", Expr: &proto.Cond{Op: "val", LHS: model.LitOp(proto.Str(w))}, Alias: "tag"}},
+					OrderBy: []proto.NOrder{{Col: proto.Operand{Col: "u"}}}}
+				sc.queries = append(sc.queries, q)
+				sc.texts = append(sc.texts, model.RenderN(q, model.Plain))
+				sc.tags = append(sc.tags, "whitespace_twins")
+				sc.expectErr = append(sc.expectErr, false)
+				c.Count("whitespace_twin_queries", 1)
+			}
+		}
 		runSQLCase(c, "C05", drv, i, sc, m)
 	})
-	return []core.Floor{{Key: "queries", Min: 2000}, {Key: "results_equal_to_reference", Min: 1000}, {Key: "boolean_shapes_enumerated", Min: 45}}
+	return []core.Floor{{Key: "whitespace_twin_queries", Min: 50}, {Key: "queries", Min: 2000}, {Key: "results_equal_to_reference", Min: 1000}, {Key: "boolean_shapes_enumerated", Min: 45}}
 }
 
 // ---------- C06 ----------
